@@ -14,7 +14,7 @@ from pyvc.values import (
 )
 
 from .a_common import F, UT, is_none
-from .a_tasks import T, TASK, TC, calls, exts, flat, index_of, trivial_loop
+from .a_tasks import T, TASK, TC, calls, exts, flat, index_of, trivial_loop, only_propagates
 from .spec import MiB, GiB, TiB, TWO53, b2z, implies, is_ceil_div, range_header
 
 B = z3.BoolVal
@@ -107,7 +107,7 @@ def register(R):
     for fn in ('readable', 'seekable'):
         R.contract(f's3transfer.compat:{fn}', props=['C01', 'C02'], params=dict(fileobj=ExtT('fileobj_or_name')), events=False,
                    setup=lambda eng, st, args, self_val: R.stream_state(st, args['fileobj']),
-                   checks=probe_post, raises={'Exception': lambda c: {}},
+                   checks=probe_post, raises={'Exception': only_propagates},
                    returns=lambda c, st, fn=fn: c.engine.opaque_pred(c.a_fileobj, 'is_' + fn))
 
     # ------------------------------------------------------------------ user-supplied source stream
@@ -231,6 +231,12 @@ def register(R):
                    requires=size_known_unless_stream,
                    raise_when={'Exception': lambda c: None})
 
+    def unsupported_target(c):
+        """own RuntimeError of _submit: no input / output manager is compatible with the user's file object -- raised
+        before anything was requested or submitted"""
+        return {'nothing_requested_or_submitted_for_an_unsupported_target': (B(
+            not [e for e in flat(c.trace) if e.kind == 'ext' and e.name.startswith('client.')] and not submits(c.trace)), ['C03', 'C04'])}
+
     def up_submit_checks(c):
         tr = c.trace
         single = calls(tr, '_submit_upload_request')
@@ -281,7 +287,7 @@ def register(R):
         f'{UST}._submit', props=['C14', 'C01', 'C04', 'C11', 'C13'],
         params=dict(SUBMIT_PARAMS, bandwidth_limiter=OptT(ObjT('s3transfer.bandwidth:BandwidthLimiter'))),
         checks=up_submit_checks,
-        raises={'Exception': lambda c: {}},
+        raises={'RuntimeError': unsupported_target, 'Exception': only_propagates},
     )
 
     # ---- bodies: the real object graph ReadFileChunk(InterruptReader(DeferredOpenFile | BytesIO | stream))
@@ -393,7 +399,7 @@ def register(R):
     R.contracts[f'{UST}._submit_upload_request'].setup = ns_setup
     R.contracts[f'{UST}._submit_upload_request'].checks = single_checks
     R.contracts[f'{UST}._submit_upload_request'].param_alternatives = MGR_ALTS
-    R.contracts[f'{UST}._submit_upload_request'].raises = {'Exception': lambda c: {}}
+    R.contracts[f'{UST}._submit_upload_request'].raises = {'Exception': only_propagates}
     R.contracts[f'{UST}._submit_upload_request'].props = ('C01', 'C04', 'C09', 'C10', 'C11', 'C13', 'C15')
 
     # ---------------------------------------------------------------- multipart upload
@@ -654,7 +660,7 @@ def register(R):
     cmu.loops = {0: LoopSpec(invariant=checksum_loop_inv, havoc_heap=checksum_havoc, symbolic_iteration=True)}
     cmu.checks = multi_checks
     cmu.param_alternatives = MGR_ALTS
-    cmu.raises = {'Exception': lambda c: {}}
+    cmu.raises = {'Exception': only_propagates}
     cmu.props = ('C01', 'C04', 'C05', 'C09', 'C10', 'C11', 'C13', 'C14', 'C15')
 
     def multi_setup(eng, st, args, self_val):
@@ -699,7 +705,7 @@ def register(R):
 
     R.contract(f'{UP}:PutObjectTask._main', props=['C01', 'C09', 'C10', 'C15'],
                params=dict(client=ExtT('client'), fileobj=ObjT(RFCq), bucket=ExtT('str'), key=ExtT('str'), extra_args=EXTRA),
-               checks=put_checks, raises={'Exception': lambda c: {}}, raise_when={'Exception': lambda c: None})
+               checks=put_checks, raises={'Exception': only_propagates}, raise_when={'Exception': lambda c: None})
 
     from .c05 import resp_get
 
@@ -747,7 +753,7 @@ def register(R):
     R.contract(f'{UP}:UploadPartTask._main', props=['C01', 'C05', 'C10', 'C15'],
                params=dict(client=ExtT('client'), fileobj=ObjT(RFCq), bucket=ExtT('str'), key=ExtT('str'),
                            upload_id=ExtT('upload_id'), part_number=Int, extra_args=EXTRA),
-               checks=part_checks, raises={'Exception': lambda c: {}}, raise_when={'Exception': lambda c: None},
+               checks=part_checks, raises={'Exception': only_propagates}, raise_when={'Exception': lambda c: None},
                returns=ExtT('part'))
 
     # ================================================================== copy
@@ -830,7 +836,7 @@ def register(R):
 
     R.contract(
         f'{CST}._submit', props=['C14', 'C15', 'C08', 'C04', 'C10'], params=dict(CP_PARAMS),
-        checks=cp_submit_checks, raises={'Exception': lambda c: {}},
+        checks=cp_submit_checks, raises={'Exception': only_propagates},
         loops={0: LoopSpec(invariant=head_map_inv, local_types={'head_object_request': EXTRA})},
     )
 
@@ -850,7 +856,7 @@ def register(R):
         return out
 
     ccs = R.contracts[f'{CST}._submit_copy_request']
-    ccs.checks, ccs.raises, ccs.props = cp_single_checks, {'Exception': lambda c: {}}, ('C01', 'C04', 'C09', 'C10', 'C15')
+    ccs.checks, ccs.raises, ccs.props = cp_single_checks, {'Exception': only_propagates}, ('C01', 'C04', 'C09', 'C10', 'C15')
     ccs.setup = lambda eng, st, args, self_val: st.assume(z3.Not(st.obj(st.obj(args['transfer_future']).fields['_meta']).fields['_size'].is_none))
 
     # ---- multipart copy
@@ -944,7 +950,7 @@ def register(R):
 
     jj_ = z3.Int('jj_')
     ccm = R.contracts[f'{CST}._submit_multipart_request']
-    ccm.checks, ccm.raises = cp_multi_checks, {'Exception': lambda c: {}}
+    ccm.checks, ccm.raises = cp_multi_checks, {'Exception': only_propagates}
     ccm.props = ('C01', 'C04', 'C05', 'C09', 'C10', 'C14', 'C15')
     ccm.loops = {
         0: LoopSpec(invariant=cp_create_filter_inv, local_types={'create_multipart_extra_args': EXTRA}),
@@ -1090,7 +1096,7 @@ def register(R):
         requires=lambda c: DATA_AT_OFFSET(c) + [('released_so_far_is_what_was_written', released_eq_streamed(c.old, c.self, c.a_fileobj), ['C02', 'C16'])],
         setup=lambda eng, st, args, self_val: streamed(st, args['fileobj']),
         ensures=ns_tasks_post, checks=ns_queue_checks, effects=ns_queue_effects,
-        raises={'Exception': lambda c: {}}, raise_when={'Exception': lambda c: None},
+        raises={'Exception': only_propagates}, raise_when={'Exception': lambda c: None},
         raise_effects={'Exception': lambda c, st, exc: (ns_queue_effects(c, st), exc)[1]},
         inline_callees=[f'{DOM}.queue_file_io_task'],
         loops={0: LoopSpec(invariant=ns_queue_loop_inv, havoc_heap=ns_tasks_havoc, iteration_checks=ns_queue_iteration,
@@ -1149,7 +1155,7 @@ def register(R):
                 dl_len(c.result) > 0, c.newf('_num_reads') == 1),
         },
         raises={'StopIteration': lambda c: {'only_after_the_first_read_and_at_end_of_body': c.newf('_num_reads') > 1},
-                'Exception': lambda c: {}, 'socket.timeout': lambda c: {}},
+                'Exception': only_propagates, 'socket.timeout': lambda c: {}},
     )
 
     def body_of_attempt(st):
@@ -1340,7 +1346,7 @@ def register(R):
                                 bandwidth_limiter=[('unlimited', Const(None)), ('limited', ObjT('s3transfer.bandwidth:BandwidthLimiter'))]),
         inline_callees=['s3transfer.bandwidth:BandwidthLimitedStream.read'],
         setup=got_setup, checks=got_checks,
-        raises={'s3transfer.exceptions:RetriesExceededError': got_raises_retries, 'Exception': lambda c: {}},
+        raises={'s3transfer.exceptions:RetriesExceededError': got_raises_retries, 'Exception': only_propagates},
         raise_when={'Exception': lambda c: None},
         loops={0: LoopSpec(invariant=lambda l: dict(stream_link(l.st), abandoned_attempts_net_to_zero_progress=to_int_term(l.st.ghost['reported']) == 0),
                            iteration_checks=got_outer_iteration, havoc_heap=got_outer_havoc,
@@ -1408,7 +1414,7 @@ def register(R):
         f'{DST}._submit', props=['C14', 'C15', 'C08', 'C04', 'C10', 'C02', 'C06', 'C11'],
         params=dict(DL_PARAMS, bandwidth_limiter=BWL_T), checks=dl_submit_checks,
         inline_callees=[f'{DL}:DeferQueue.__init__'],
-        raises={'Exception': lambda c: {}},
+        raises={'RuntimeError': unsupported_target, 'Exception': only_propagates},
     )
 
     # ---- single GET
@@ -1487,7 +1493,7 @@ def register(R):
         return out
 
     cds = R.contracts[f'{DST}._submit_download_request']
-    cds.checks, cds.raises = dl_single_checks, {'Exception': lambda c: {}}
+    cds.checks, cds.raises = dl_single_checks, {'Exception': only_propagates}
     cds.param_alternatives = MGR_DL
     cds.props = ('C02', 'C03', 'C04', 'C06', 'C08', 'C10', 'C11', 'C13', 'C15', 'C05')
     cds.setup = lambda eng, st, args, self_val: st.assume(z3.Not(st.obj(st.obj(args['transfer_future']).fields['_meta']).fields['_size'].is_none))
@@ -1580,7 +1586,7 @@ def register(R):
         st.assume(z3.Not(z3.Select(m['present'], z3.StringVal('Range'))))
 
     cdr = R.contracts[f'{DST}._submit_ranged_download_request']
-    cdr.checks, cdr.raises = dl_ranged_checks, {'Exception': lambda c: {}}
+    cdr.checks, cdr.raises = dl_ranged_checks, {'Exception': only_propagates}
     cdr.param_alternatives = MGR_DL
     cdr.props = ('C02', 'C03', 'C04', 'C06', 'C10', 'C11', 'C13', 'C14', 'C15', 'C05')
     cdr.setup = dl_ranged_setup
@@ -1644,7 +1650,7 @@ def register(R):
     R.contract(f'{DL}:IOCloseTask._main', props=['C06'], params=dict(fileobj=ObjT(DOFq)),
                checks=lambda c: {'closes_the_file_if_it_was_opened': z3.If(z3.Not(is_none(c.old.f(c.a_fileobj, '_fileobj'))),
                                                                            B(len(exts(c.trace, 'destfile.close')) == 1), B(len(exts(c.trace, 'destfile.close')) == 0))},
-               raises={'Exception': lambda c: {}}, raise_when={'Exception': lambda c: None})
+               raises={'Exception': only_propagates}, raise_when={'Exception': lambda c: None})
 
     def iowrite_checks(c):
         tr = [e for e in c.trace if e.kind == 'ext']
@@ -1652,11 +1658,11 @@ def register(R):
         return {'seeks_to_the_offset_then_writes_the_data': B(okk)}
 
     R.contract(f'{DL}:IOWriteTask._main', props=['C02', 'C06'], params=dict(fileobj=ExtT('destfile'), data=BytesT('obj'), offset=Int),
-               checks=iowrite_checks, raises={'Exception': lambda c: {}}, raise_when={'Exception': lambda c: None})
+               checks=iowrite_checks, raises={'Exception': only_propagates}, raise_when={'Exception': lambda c: None})
     R.contract(f'{DL}:IOStreamingWriteTask._main', props=['C02', 'C16'], params=dict(fileobj=ExtT('destfile'), data=BytesT('obj')),
                checks=lambda c: {'appends_the_data_without_seeking': B(
                    [(e.name, e.args) for e in c.trace if e.kind == 'ext'] == [('destfile.write', (c.a_data,))])},
-               raises={'Exception': lambda c: {}}, raise_when={'Exception': lambda c: None})
+               raises={'Exception': only_propagates}, raise_when={'Exception': lambda c: None})
 
     # ================================================================== delete
     DET = f'{DE}:DeleteSubmissionTask'
@@ -1675,7 +1681,7 @@ def register(R):
 
     R.contract(f'{DET}._submit', props=['C04', 'C10', 'C15'],
                params=dict(client=ExtT('client'), request_executor=ExtT('bounded_executor'), transfer_future=ObjT(TF)),
-               checks=del_checks, raises={'Exception': lambda c: {}})
+               checks=del_checks, raises={'Exception': only_propagates})
 
     def simple_op_checks(op, fixed):
         def chk(c):
@@ -1692,7 +1698,7 @@ def register(R):
     R.contract(f'{DE}:DeleteObjectTask._main', props=['C10', 'C15'],
                params=dict(client=ExtT('client'), bucket=ExtT('str'), key=ExtT('str'), extra_args=EXTRA),
                checks=simple_op_checks('delete_object', {'Bucket': 'bucket', 'Key': 'key'}),
-               raises={'Exception': lambda c: {}}, raise_when={'Exception': lambda c: None})
+               raises={'Exception': only_propagates}, raise_when={'Exception': lambda c: None})
 
     def copy_obj_checks(c):
         from .a_windows import reported
@@ -1708,7 +1714,7 @@ def register(R):
     R.contract(f'{CP}:CopyObjectTask._main', props=['C01', 'C09', 'C10', 'C15'],
                params=dict(client=ExtT('client'), copy_source=Any, bucket=ExtT('str'), key=ExtT('str'), extra_args=EXTRA,
                            callbacks=ListOfT(ExtT('progress_cb')), size=Int),
-               checks=copy_obj_checks, raises={'Exception': lambda c: {}}, raise_when={'Exception': lambda c: None},
+               checks=copy_obj_checks, raises={'Exception': only_propagates}, raise_when={'Exception': lambda c: None},
                loops={0: trivial_loop()})
 
     def copy_part_checks(c):
@@ -1737,7 +1743,7 @@ def register(R):
                params=dict(client=ExtT('client'), copy_source=Any, bucket=ExtT('str'), key=ExtT('str'), upload_id=ExtT('upload_id'),
                            part_number=Int, extra_args=EXTRA, callbacks=ListOfT(ExtT('progress_cb')), size=Int,
                            checksum_algorithm=OptT(ExtT('argval'))),
-               checks=copy_part_checks, raises={'Exception': lambda c: {}}, raise_when={'Exception': lambda c: None},
+               checks=copy_part_checks, raises={'Exception': only_propagates}, raise_when={'Exception': lambda c: None},
                loops={0: trivial_loop()}, returns=ExtT('part'))
     R.external('argval', upper=ExtSpec(returns=ExtT('str'), pure=True))
     R.external('progress_cb', **{'()': ExtSpec(raises=('Exception', 'OSError'), user_code=True)})
